@@ -29,7 +29,7 @@ from pathlib import Path
 VERIF = Path(__file__).resolve().parent.parent
 COQ = VERIF / "coq"
 GEN = COQ / "gen"
-REF = COQ / "ref"      # committed translation of the pinned tree (tools/refresh_ref.py)
+REF = VERIF / "coqref"   # committed translation of the pinned tree (tools/refresh_ref.py); outside the -Q root on purpose
 BUILD = VERIF / "build"
 KNOWN = VERIF / "known_findings.txt"
 
